@@ -350,7 +350,8 @@ fn run_with_fault_drv(h: &History, plan: Option<FaultPlan>, drv_path: Option<&st
         let (n, bad) = crate::crash::monitor(&fs, &mut drv);
         out.monitored_ops = n as u64;
         if let Some(what) = bad {
-            out.sig = Some(("c08:operation-order-outside-the-verified-discipline-under-fault".into(), what));
+            let removal = what.contains(" removeWal ") || what.contains(" removeTable ") || what.contains(" removeManifest ");
+            out.sig = Some((if removal { "c11:file-needed-by-recovery-removed".into() } else { "c08:operation-order-outside-the-verified-discipline-under-fault".into() }, what));
         }
     }
     out
